@@ -39,7 +39,7 @@ CHECKS = {
     "C06": (
         "runtime monitor: crash/hang/abort observer around hostile inputs (all prefixes, token mutations, random Unicode, zeros in every number slot, include graphs, deep nesting, price graphs with many ties, inputs of several MB) in sacrificial workers with a per-case CPU limit, plus black-box CLI runs",
         "Every operation named by the property (parse, format, load, process, balance/-X/ranges, register, accounts, eval; in-process and through the real binary) is run on ~10^6 (quick) / 5*10^7 (thorough) hostile inputs with integer-overflow and debug-assert traps on; any panic, abort, stack overflow, signal or CPU-limit hit is a violation with the input as witness.",
-        "Hang = 10 CPU-seconds on one input (inputs are <= 64 KiB except the large-input family: ledgers of 40 000-120 000 transactions, 70 000-character tokens, a 100 000-term expression, a 200 000-line price database); decimal-range overflows (rust_decimal's own overflow panics) are outside the statement's proviso and are counted, not reported. Open known findings: stack overflow on ~10^4 nested parentheses and on a 100 000-term expression.",
+        "Hang = 20 CPU-seconds for one in-process case or 10 CPU-seconds for one run of the binary (inputs are <= 64 KiB except the large-input family: ledgers of 40 000-120 000 transactions, 70 000-character tokens, a 100 000-term expression, a 200 000-line price database); decimal-range overflows (rust_decimal's own overflow panics) are outside the statement's proviso and are counted, not reported. Open known findings: stack overflow on ~10^4 nested parentheses and on a 100 000-term expression.",
         "4/C06",
     ),
     "C07": (
